@@ -114,6 +114,54 @@ def check_bracket(ctx):
     ctx.check(("arg", 2) in a, inst, "PROVENANCE", body.path, "the chunk derives from the `extents` argument", body.where(wj[0]))
 
 
+def _synced_before_ok(ctx, name):
+    """callee summary: every device write of `name` is followed by an fsync before any Ok return"""
+    from rules import C02
+    b = ctx.prog.fn(name) if ctx.prog.find(name) else None
+    if b is None:
+        return False
+    ws = V.W_REACHING(b)
+    ss = set(C02.SYNC(b))
+    oks = set(A.ok_nodes(b))
+    if not ws or not ss:
+        return False
+    for w in ws:
+        r, _ = A.reach(b, A.succs(b, w), blocked_nodes=ss)
+        if any(o in r for o in oks):
+            return False
+    return True
+
+
+def check_barriers(ctx):
+    """ordering, not just durability: the three steps of a retirement transaction (intent journal, marker writes, journal
+    clear) are separated by fsync barriers. Without the barrier after the markers, the clear sector and a *tail* marker may reach
+    the device while the head marker is lost: the journal then says nothing is in flight, nothing is replayed, and the scan meets a
+    record whose head is intact and whose tail is a marker (v3: CorruptedRecord, the file does not reopen). The barrier is either
+    part of the step (every device write of the callee is fsynced before its Ok return) or an explicit flush between the calls."""
+    from rules import C02
+    inst = "C03.bracket/barriers"
+    for fn, steps in (("DiskIO::retire_extents", ["DiskIO::write_allocation_journal", "DiskIO::retire_extents_unjournaled", "DiskIO::clear_allocation_journal"]),
+                      ("DiskIO::replay_allocation_journal", ["DiskIO::retire_extents_unjournaled", "DiskIO::clear_allocation_journal"])):
+        body = ctx.fn(fn, inst)
+        if body is None:
+            continue
+        sites = [ctx.sites(body, R.call(st), inst, exact=1) for st in steps]
+        if not all(sites):
+            continue
+        flushes = set(R.call("DiskIO::flush")(body)) | set(R.call(*V.P_SYNC)(body))
+        flushes -= {x for st in sites for x in st}
+        for (a_name, a_sites), (b_name, b_sites) in zip(zip(steps, sites), list(zip(steps, sites))[1:]):
+            inner = _synced_before_ok(ctx, a_name)
+            r, _ = A.reach(body, A.succs(body, a_sites[0]), blocked_nodes=flushes)
+            explicit = b_sites[0] not in r
+            ctx.check(inner or explicit, inst, "FOLLOW", body.path,
+                      "an fsync barrier separates %s from %s (inside the step or as an explicit flush between them)" % (a_name.rsplit("::", 1)[-1], b_name.rsplit("::", 1)[-1]),
+                      body.where(a_sites[0]), {"step_syncs_itself": inner, "explicit_flush_between": explicit})
+    # the final step is durable before the transaction reports success
+    ctx.check(_synced_before_ok(ctx, "DiskIO::clear_allocation_journal"), inst, "FOLLOW", "DiskIO::clear_allocation_journal",
+              "the journal clear is fsynced before it returns Ok", None)
+
+
 def check_recover(ctx):
     inst = "C03.recover"
     body = ctx.fn("FeoxStore::scan_and_rebuild_indexes", inst)
@@ -277,6 +325,7 @@ def check(ctx):
     check_losers(ctx)
     check_layer(ctx)
     check_bracket(ctx)
+    check_barriers(ctx)
     check_write_batch_bracket(ctx)
     check_recover(ctx)
     check_stamp(ctx)
